@@ -7,6 +7,74 @@ From Prov Require Import Str StrProofs Sexp Tables Nsm NsmProofs Values Record R
 Import ListNotations.
 Open Scope string_scope.
 
+(* ---- more fuel never hurts the lexer *)
+Definition lex1 (rec : string -> option (list tok)) (s : string) : option (list tok) :=
+    match s with
+    | EmptyString => Some []
+    | String c r =>
+        let cons t rest := match rec rest with Some l => Some (t :: l) | None => None end in
+        if is_ws c then rec r
+        else if Ascii.eqb c "("%char then cons TLpar r
+        else if Ascii.eqb c ")"%char then cons TRpar r
+        else if Ascii.eqb c "["%char then cons TLbr r
+        else if Ascii.eqb c "]"%char then cons TRbr r
+        else if Ascii.eqb c ","%char then cons TComma r
+        else if Ascii.eqb c ";"%char then cons TSemi r
+        else if Ascii.eqb c "="%char then cons TEq r
+        else if Ascii.eqb c "%"%char then
+          match r with String "%"%char r' => cons TPct r' | _ => None end
+        else if Ascii.eqb c "@"%char then
+          let '(w, rest) := take_while is_word_char r in cons (TLang w) rest
+        else if Ascii.eqb c "<"%char then
+          match take_until ">"%char r with Some (u, rest) => cons (TIri u) rest | None => None end
+        else if Ascii.eqb c "'"%char then
+          match take_until "'"%char r with Some (q, rest) => cons (TQn q) rest | None => None end
+        else if Ascii.eqb c dqc then
+          match r with
+          | String c2 (String c3 r3) =>
+              if (Ascii.eqb c2 dqc && Ascii.eqb c3 dqc)%bool then
+                match long_string r3 with Some (b, rest) => cons (TStr b) rest | None => None end
+              else match short_string r with Some (b, rest) => cons (TStr b) rest | None => None end
+          | _ => match short_string r with Some (b, rest) => cons (TStr b) rest | None => None end
+          end
+        else if is_word_char c then
+          let '(w, rest) := take_while is_word_char s in cons (TWord w) rest
+        else None
+    end.
+
+Lemma lex_unfold : forall f s, lex (S f) s = lex1 (lex f) s.
+Proof. intros f s. destruct s; reflexivity. Qed.
+
+Lemma lex1_mono : forall (r1 r2 : string -> option (list tok)) s l,
+  (forall x y, r1 x = Some y -> r2 x = Some y) -> lex1 r1 s = Some l -> lex1 r2 s = Some l.
+Proof.
+  intros r1 r2 s l M H. unfold lex1 in *. destruct s as [|c r]; [exact H|]. cbv zeta in *.
+  repeat match goal with
+         | H : context [if ?b then _ else _] |- _ => destruct b
+         end;
+  repeat match goal with
+         | H : context [match ?x with _ => _ end] |- _ =>
+             match x with
+             | r1 _ => fail 1
+             | _ => destruct x eqn:?
+             end
+         end; try discriminate; try (apply M; exact H);
+  repeat match goal with
+         | H : match r1 ?x with Some _ => _ | None => _ end = Some _ |- _ =>
+             destruct (r1 x) as [l0|] eqn:EL; [|discriminate]; rewrite (M _ _ EL); exact H
+         end.
+Qed.
+
+Lemma lex_step : forall f s l, lex f s = Some l -> lex (S f) s = Some l.
+Proof.
+  induction f as [|f IH]; intros s l H.
+  - cbn [lex] in H. destruct s; [|discriminate]. inversion H. reflexivity.
+  - rewrite lex_unfold in *. exact (lex1_mono (lex f) (lex (S f)) s l IH H).
+Qed.
+
+Lemma lex_more : forall k f s l, lex f s = Some l -> lex (k + f) s = Some l.
+Proof. induction k as [|k IH]; intros f s l H; [exact H|]. cbn [Nat.add]. apply lex_step. apply IH. exact H. Qed.
+
 (* ---- composing lexer facts: the text s, followed by anything that satisfies C, is cut into ts with k more
    units of fuel than the rest needs *)
 Definition Lexes (C : string -> Prop) (s : string) (k : nat) (ts : list tok) : Prop :=
